@@ -102,6 +102,7 @@ pub const POISON_KINDS: &[&str] = &[
     "add_unrelated",
     "ans_ns_nonancestor",
     "alias_into_local",
+    "alias_through_local",
     // replies that must be discarded whole, carrying tagged records
     "discard_wrong_id",
     "discard_qr_clear",
@@ -689,6 +690,33 @@ impl UniverseNet {
                         self.tagged_a(&t, 300)
                     };
                     resp.answers.push(forged);
+                }
+            }
+            "alias_through_local" => {
+                // a bare alias chain (no final record) that passes THROUGH a name
+                // local data speaks for: `q CNAME t, t CNAME x` (sometimes with a
+                // link before t, sometimes with a record at x).  Everything from t
+                // on is the local data's business.
+                if !self.local_targets.is_empty() {
+                    let h = world::with(|w| w.derived("upstream.local_target", &qname));
+                    let t = self.local_targets[usize::try_from(h % self.local_targets.len() as u64).unwrap()].clone();
+                    let tag = self.next_tag();
+                    let x = format!("beyond{tag}.evil.invalid.");
+                    resp.answers.clear();
+                    resp.authority.clear();
+                    resp.header.rcode = Rcode::NoError;
+                    if (h / 7) % 3 == 1 {
+                        let m = format!("before{tag}.evil.invalid.");
+                        resp.answers.push(rr(&qname, &format!("CNAME {m}"), 300));
+                        resp.answers.push(rr(&m, &format!("CNAME {t}"), 300));
+                    } else {
+                        resp.answers.push(rr(&qname, &format!("CNAME {t}"), 300));
+                    }
+                    resp.answers.push(rr(&t, &format!("CNAME {x}"), 300));
+                    if (h / 7) % 3 == 2 {
+                        let forged = self.tagged_a(&x, 300);
+                        resp.answers.push(forged);
+                    }
                 }
             }
             "ans_cname_fan_first" => {
